@@ -354,8 +354,14 @@ func cmdCheck(args []string) int {
 			deadline = start.Add(time.Duration(n) * time.Second)
 		}
 	}
+	onlyExact := false
 	for _, h := range hs {
-		if *only != "" && !strings.Contains(h.Func, *only) {
+		if h.Func == *only {
+			onlyExact = true
+		}
+	}
+	for _, h := range hs {
+		if *only != "" && (onlyExact && h.Func != *only || !onlyExact && !strings.Contains(h.Func, *only)) {
 			continue
 		}
 		opts := h.Opts
@@ -595,7 +601,7 @@ func cmdCheck(args []string) int {
 	}
 	// cover points: every declared label must have been reached
 	for _, h := range hs {
-		if *only != "" && !strings.Contains(h.Func, *only) {
+		if *only != "" && (onlyExact && h.Func != *only || !onlyExact && !strings.Contains(h.Func, *only)) {
 			continue
 		}
 		if h.NoCoverCheck {
